@@ -207,7 +207,10 @@ TRun ==
         /\ runView' = IF isStart THEN NoView ELSE runView
         /\ seen' = IF isStart THEN NoSeen ELSE seen
         /\ pg' = IF isStart THEN {c \in pg : c[2] # Line.rn} ELSE pg
-        /\ ended' = IF isStart THEN TRUE ELSE IF isStartDone THEN FALSE ELSE ended   \* "ended" = no run that reached RUNNING is open
+        \* "ended" = no run is open.  A run is open from its SOSOR event (number drawn, start time set and published) - also
+        \* when the START that opened it fails afterwards (critical hook at weight >= 0, failing task transition): "however
+        \* the run ends"
+        /\ ended' = IF isStart THEN FALSE ELSE ended
         /\ endS' = IF isStart THEN 0 ELSE IF isEndS \/ (isTd /\ endS = 0) THEN endS + 1 ELSE endS
         /\ endC' = IF isStart THEN 0 ELSE IF isEndC \/ (isTd /\ endS # 0) THEN endC + 1 ELSE endC
         /\ nviol' = nviol
